@@ -48,7 +48,7 @@ def rule_validate(ctx):
         tr = Tracer(fn).run()
         solver = [e for e in tr.events if e.kind == "call" and e.name == "run_solver"]
         if not solver:
-            res.violate("%s : no-solver-call" % key, "run_solver call not found (fail closed)", fn_loc(fn))
+            res.undecided("%s : no-solver-call" % key, "run_solver call not found (fail closed)", fn_loc(fn))
             continue
         s0 = min(e.order for e in solver)
         tries = [e for e in tr.events if e.kind == "try" and e.order < s0]
@@ -112,7 +112,7 @@ def rule_same(ctx):
         xname = fn["params"][1]["name"] if len(fn["params"]) > 1 and fn["params"][1].get("k") == "Bind" else "x"
         call, clo = closure_of_for_each(fn)
         if clo is None:
-            res.violate("%s : no-row-closure" % key, "per-row decision closure not found (fail closed)", fn_loc(fn))
+            res.undecided("%s : no-row-closure" % key, "per-row decision closure not found (fail closed)", fn_loc(fn))
             continue
         chain = r.e(call["recv"])
         if st == "FittedLogisticRegression":
@@ -260,7 +260,7 @@ def rule_penalty(ctx):
         # error returns (`?` residuals) carry no objective value
         bad = [r_ for r_ in bad if r_[1] is None or True]
         if not rets:
-            res.violate("%s : no-return-paths" % key, "no return path found (fail closed)", fn_loc(f))
+            res.undecided("%s : no-return-paths" % key, "no return path found (fail closed)", fn_loc(f))
         elif bad:
             path = " / ".join(bad[0][2]) or "the only path"
             res.violate("%s : path-without-penalty" % key, "on path [%s] the returned value is computed without `%s`: the L2 penalty is missing from that branch of the objective/gradient" % (path[:120], src.split(":")[-1]), fn_loc(f))
@@ -294,7 +294,7 @@ def rule_ratio(ctx):
     if checked >= 40:
         res.ok()
     else:
-        res.violate("scope-too-small", "only %d function bodies in scope (expected at least 40): the rule would pass vacuously" % checked, "")
+        res.undecided("scope-too-small", "only %d function bodies in scope (expected at least 40): the rule would pass vacuously" % checked, "")
     return res.finish(1)
 
 
